@@ -177,7 +177,11 @@ where
     T: crate::time::Instant,
 {
     match mode() {
-        MODE_L1B => Some(fam21::transition_ref(this, mi, event)),
+        MODE_L1B => Some(match crate::verif::family() {
+            22 => fam22::transition_ref(this, mi, event),
+            32 => fam32::transition_ref(this, mi, event),
+            _ => fam21::transition_ref(this, mi, event),
+        }),
         MODE_L2 => Some(l2::transition_tc(this, mi, event)),
         crate::verif::MODE_ANY_ACTION => Some(crate::verif::transition_any_action(this, mi, event)),
         _ => None,
@@ -189,7 +193,15 @@ where
     R: RngCore,
     T: crate::time::Instant,
 {
-    if mode() == MODE_L1A { Some(fam21::update_counter_ref(this, mi)) } else { None }
+    if mode() == MODE_L1A {
+        Some(match crate::verif::family() {
+            22 => fam22::update_counter_ref(this, mi),
+            32 => fam32::update_counter_ref(this, mi),
+            _ => fam21::update_counter_ref(this, mi),
+        })
+    } else {
+        None
+    }
 }
 
 /// ghost record of what the any-action stub wrote for machines 0..4 in the current harness
@@ -770,5 +782,18 @@ pub(crate) mod l2 {
 pub(crate) mod fam21 {
     pub(crate) const S: usize = 2;
     pub(crate) const K: usize = 1;
+    pub(crate) const FAMILY: u8 = 21;
+    include!("l1_family.rs");
+}
+pub(crate) mod fam22 {
+    pub(crate) const S: usize = 2;
+    pub(crate) const K: usize = 2;
+    pub(crate) const FAMILY: u8 = 22;
+    include!("l1_family.rs");
+}
+pub(crate) mod fam32 {
+    pub(crate) const S: usize = 3;
+    pub(crate) const K: usize = 2;
+    pub(crate) const FAMILY: u8 = 32;
     include!("l1_family.rs");
 }
